@@ -382,12 +382,22 @@ Fixpoint compose_opts (c : tcfg) (opts : list (N * N * bytes)) (w : ws) : wres :
       wbind (append_slice c data w2) (compose_opts c r)))
   end.
 
-Definition compose_opt (c : tcfg) (udp : N) (opts : list (N * N * bytes)) (w : ws) : wres :=
+(* what the closure given to AdditionalBuilder::opt sets in the OPT header:
+   set_udp_payload_size, optionally set_rcode (12 bit extended rcode), then
+   set_version and set_dnssec_ok *)
+Record opt_hdr := mkOH { oh_udp : N; oh_rc : option N; oh_ver : N; oh_do : bool }.
+Definition oh_ext (oh : opt_hdr) : N := match oh_rc oh with Some v => (v / 16) mod 256 | None => 0 end.
+
+Definition compose_opt (c : tcfg) (oh : opt_hdr) (opts : list (N * N * bytes)) (w : ws) : wres :=
   let start := mlen (w_buf w) in
   wbind (append_slice c opt_header_default w) (fun w1 =>          (* OptBuilder::new *)
   wbind (append_slice c [0; 0] w1) (fun w2 =>                      (* build *)
     let pos := mlen (w_buf w2) in
-    let w3 := set_buf w2 (patch16 (start + 3) udp (w_buf w2)) in   (* set_udp_payload_size *)
+    (* set_udp_payload_size: inner[3..5]; set_rcode: inner[5] = ext; set_version:
+       inner[6]; set_dnssec_ok: inner[7] |= 0x80 (all octets were zero) *)
+    let w3 := set_buf w2 (patch16 (start + 7) (if oh_do oh then 32768 else 0)
+                           (patch16 (start + 5) (oh_ext oh * 256 + oh_ver oh)
+                             (patch16 (start + 3) (oh_udp oh) (w_buf w2)))) in
     match compose_opts c opts w3 with
     | WOk w4 =>
         let len := mlen (w_buf w4) - pos in
@@ -404,10 +414,11 @@ Record bstate := mkB {
   b_limit : option N;                 (* None: usize::MAX *)
   b_qd : N; b_an : N; b_ns : N; b_ar : N;
   b_sec : N;                          (* 0 question, 1 answer, 2 authority, 3 additional *)
-  b_s1 : N; b_s2 : N; b_s3 : N }.     (* AnswerBuilder/AuthorityBuilder/AdditionalBuilder.start *)
+  b_s1 : N; b_s2 : N; b_s3 : N;       (* AnswerBuilder/AuthorityBuilder/AdditionalBuilder.start *)
+  b_hdr : bytes }.                    (* header octets 0..3 (id, flags, rcode); [w_buf] keeps zeros there *)
 
 Definition set_w (s : bstate) (w : ws) : bstate :=
-  mkB w (b_limit s) (b_qd s) (b_an s) (b_ns s) (b_ar s) (b_sec s) (b_s1 s) (b_s2 s) (b_s3 s).
+  mkB w (b_limit s) (b_qd s) (b_an s) (b_ns s) (b_ar s) (b_sec s) (b_s1 s) (b_s2 s) (b_s3 s) (b_hdr s).
 
 Inductive rword := RNone | ROk | RErr (e : N) | RPanic (site : N) | RFuel.
 
@@ -415,10 +426,10 @@ Definition count_of (s : bstate) : N :=
   if b_sec s =? 0 then b_qd s else if b_sec s =? 1 then b_an s
   else if b_sec s =? 2 then b_ns s else b_ar s.
 Definition set_count (s : bstate) (v : N) : bstate :=
-  if b_sec s =? 0 then mkB (b_w s) (b_limit s) v (b_an s) (b_ns s) (b_ar s) (b_sec s) (b_s1 s) (b_s2 s) (b_s3 s)
-  else if b_sec s =? 1 then mkB (b_w s) (b_limit s) (b_qd s) v (b_ns s) (b_ar s) (b_sec s) (b_s1 s) (b_s2 s) (b_s3 s)
-  else if b_sec s =? 2 then mkB (b_w s) (b_limit s) (b_qd s) (b_an s) v (b_ar s) (b_sec s) (b_s1 s) (b_s2 s) (b_s3 s)
-  else mkB (b_w s) (b_limit s) (b_qd s) (b_an s) (b_ns s) v (b_sec s) (b_s1 s) (b_s2 s) (b_s3 s).
+  if b_sec s =? 0 then mkB (b_w s) (b_limit s) v (b_an s) (b_ns s) (b_ar s) (b_sec s) (b_s1 s) (b_s2 s) (b_s3 s) (b_hdr s)
+  else if b_sec s =? 1 then mkB (b_w s) (b_limit s) (b_qd s) v (b_ns s) (b_ar s) (b_sec s) (b_s1 s) (b_s2 s) (b_s3 s) (b_hdr s)
+  else if b_sec s =? 2 then mkB (b_w s) (b_limit s) (b_qd s) (b_an s) v (b_ar s) (b_sec s) (b_s1 s) (b_s2 s) (b_s3 s) (b_hdr s)
+  else mkB (b_w s) (b_limit s) (b_qd s) (b_an s) (b_ns s) v (b_sec s) (b_s1 s) (b_s2 s) (b_s3 s) (b_hdr s).
 
 Definition limit_hit (new_pos : N) (limit : option N) : bool :=
   match limit with
@@ -449,22 +460,23 @@ Definition mb_push (c : tcfg) (s : bstate) (f : ws -> wres) : bstate * rword :=
 Inductive op :=
 | OpQ (q : question)
 | OpR (r : rrecord)
-| OpOpt (udp : N) (opts : list (N * N * bytes))
+| OpOpt (oh : opt_hdr) (opts : list (N * N * bytes))
 | OpNext                  (* QuestionBuilder::answer / AnswerBuilder::authority / AuthorityBuilder::additional *)
 | OpBack                  (* AdditionalBuilder::authority / AuthorityBuilder::answer / AnswerBuilder::question *)
 | OpRewind                (* <Section>Builder::rewind *)
-| OpLimit (l : option N). (* set_push_limit / clear_push_limit *)
+| OpLimit (l : option N)  (* set_push_limit / clear_push_limit *)
+| OpHdr (h : bytes).      (* header_mut() setters: the four header octets afterwards *)
 (* every other conversion is, in the code, a composition of these:
    x.additional() = x.answer().authority().additional(), x.question() from
    additional = authority().answer().question(), builder() = question() then
    QuestionBuilder::rewind *)
 
 Definition set_sec (s : bstate) (k : N) : bstate :=
-  mkB (b_w s) (b_limit s) (b_qd s) (b_an s) (b_ns s) (b_ar s) k (b_s1 s) (b_s2 s) (b_s3 s).
+  mkB (b_w s) (b_limit s) (b_qd s) (b_an s) (b_ns s) (b_ar s) k (b_s1 s) (b_s2 s) (b_s3 s) (b_hdr s).
 Definition set_start (s : bstate) (k v : N) : bstate :=
-  if k =? 1 then mkB (b_w s) (b_limit s) (b_qd s) (b_an s) (b_ns s) (b_ar s) (b_sec s) v (b_s2 s) (b_s3 s)
-  else if k =? 2 then mkB (b_w s) (b_limit s) (b_qd s) (b_an s) (b_ns s) (b_ar s) (b_sec s) (b_s1 s) v (b_s3 s)
-  else mkB (b_w s) (b_limit s) (b_qd s) (b_an s) (b_ns s) (b_ar s) (b_sec s) (b_s1 s) (b_s2 s) v.
+  if k =? 1 then mkB (b_w s) (b_limit s) (b_qd s) (b_an s) (b_ns s) (b_ar s) (b_sec s) v (b_s2 s) (b_s3 s) (b_hdr s)
+  else if k =? 2 then mkB (b_w s) (b_limit s) (b_qd s) (b_an s) (b_ns s) (b_ar s) (b_sec s) (b_s1 s) v (b_s3 s) (b_hdr s)
+  else mkB (b_w s) (b_limit s) (b_qd s) (b_an s) (b_ns s) (b_ar s) (b_sec s) (b_s1 s) (b_s2 s) v (b_hdr s).
 Definition start_of (s : bstate) : N :=
   if b_sec s =? 0 then header_len else if b_sec s =? 1 then b_s1 s
   else if b_sec s =? 2 then b_s2 s else b_s3 s.
@@ -477,11 +489,39 @@ Definition rewind (c : tcfg) (s : bstate) : outcome bstate :=
   | _ => OutOfFuel
   end.
 
-Definition step (c : tcfg) (s : bstate) (o : op) : bstate * rword :=
+Definition set_hdr (s : bstate) (h : bytes) : bstate :=
+  mkB (b_w s) (b_limit s) (b_qd s) (b_an s) (b_ns s) (b_ar s) (b_sec s) (b_s1 s) (b_s2 s) (b_s3 s) h.
+(* Header::set_rcode: inner[3] = inner[3] & 0xF0 | (rcode & 0x0F) *)
+Definition hdr_set_rcode (h : bytes) (rc : N) : bytes :=
+  match h with
+  | [a; b; f; d] => [a; b; f; (d / 16) * 16 + rc mod 16]
+  | _ => h
+  end.
+(* the closure runs once the OPT header and the RDLENGTH placeholder are in *)
+Definition opt_reaches_closure (c : tcfg) (w : ws) : bool :=
+  match append_slice c opt_header_default w with
+  | WOk w1 => match append_slice c [0; 0] w1 with WOk _ => true | _ => false end
+  | _ => false
+  end.
+
+(* restore = AdditionalBuilder::opt puts the header RCODE back when the push fails *)
+Definition step_gen (restore : bool) (c : tcfg) (s : bstate) (o : op) : bstate * rword :=
   match o with
   | OpQ q => if b_sec s =? 0 then mb_push c s (compose_question c q) else (s, RNone)
   | OpR r => if b_sec s =? 0 then (s, RNone) else mb_push c s (compose_record c r)
-  | OpOpt udp opts => if b_sec s =? 3 then mb_push c s (compose_opt c udp opts) else (s, RNone)
+  | OpOpt oh opts =>
+      if b_sec s =? 3 then
+        let sr := mb_push c s (compose_opt c oh opts) in
+        let h1 := match oh_rc oh with
+                  | Some v => if opt_reaches_closure c (b_w s) then hdr_set_rcode (b_hdr s) v else b_hdr s
+                  | None => b_hdr s
+                  end in
+        let h2 := match snd sr with
+                  | RErr _ => if restore then b_hdr s else h1
+                  | _ => h1
+                  end in
+        (set_hdr (fst sr) h2, snd sr)
+      else (s, RNone)
   | OpNext =>        (* XBuilder::new: start = current length; no octets change *)
       if b_sec s <? 3
       then (set_sec (set_start s (b_sec s + 1) (mlen (w_buf (b_w s)))) (b_sec s + 1), RNone)
@@ -493,8 +533,17 @@ Definition step (c : tcfg) (s : bstate) (o : op) : bstate * rword :=
   | OpRewind =>
       match rewind c s with
       | Ok s' => (s', RNone) | Panic site => (s, RPanic site) | _ => (s, RFuel) end
-  | OpLimit l => (mkB (b_w s) l (b_qd s) (b_an s) (b_ns s) (b_ar s) (b_sec s) (b_s1 s) (b_s2 s) (b_s3 s), RNone)
+  | OpLimit l => (mkB (b_w s) l (b_qd s) (b_an s) (b_ns s) (b_ar s) (b_sec s) (b_s1 s) (b_s2 s) (b_s3 s) (b_hdr s), RNone)
+  | OpHdr h => (set_hdr s (firstn 4 (h ++ [0; 0; 0; 0])), RNone)
   end.
+Definition step := step_gen opt_restores_rcode_on_err.
+
+(* what a conversion to section k (.question() / .answer() / .authority() /
+   .additional()) and .builder() are composed of in the code (T1:
+   conversions_anchored reads every conversion body) *)
+Definition conv_ops (sec k : N) : list op :=
+  if sec <=? k then repeat OpNext (N.to_nat (k - sec)) else repeat OpBack (N.to_nat (sec - k)).
+Definition builder_ops (sec : N) : list op := repeat OpBack (N.to_nat sec) ++ [OpRewind].
 
 Definition is_dead (r : rword) : bool :=
   match r with RPanic _ => true | RFuel => true | _ => false end.
@@ -514,13 +563,13 @@ Definition empty_ws : ws := mkWs [] 0 [] [] [].
 (* MessageBuilder::from_target: truncate(0), append the 12 header octets *)
 Definition init (c : tcfg) : option bstate :=
   match append_slice c (repeat 0 (N.to_nat header_len)) empty_ws with
-  | WOk w => Some (mkB w None 0 0 0 0 0 header_len header_len header_len)
+  | WOk w => Some (mkB w None 0 0 0 0 0 header_len header_len header_len [0; 0; 0; 0])
   | _ => None
   end.
 
 (* the octets a user sees: as_slice() / finish() *)
 Definition msg_of (s : bstate) : bytes :=
-  firstn 4 (w_buf (b_w s)) ++ be16 (b_qd s) ++ be16 (b_an s) ++ be16 (b_ns s) ++ be16 (b_ar s)
+  firstn 4 (b_hdr s ++ [0; 0; 0; 0]) ++ be16 (b_qd s) ++ be16 (b_an s) ++ be16 (b_ns s) ++ be16 (b_ar s)
   ++ skipn 12 (w_buf (b_w s)).
 (* StreamTarget::as_stream_slice *)
 Definition stream_of (s : bstate) : bytes := be16 (w_shim (b_w s)) ++ msg_of s.
@@ -537,8 +586,9 @@ Fixpoint opts_bytes (opts : list (N * N * bytes)) : bytes :=
   | [] => []
   | (code, dlen, data) :: r => be16 code ++ be16 dlen ++ data ++ opts_bytes r
   end.
-Definition opt_record (udp : N) (opts : list (N * N * bytes)) : rrecord :=
-  mkR [] 41 udp 0 true [RBytes (opts_bytes opts)].
+Definition opt_record (oh : opt_hdr) (opts : list (N * N * bytes)) : rrecord :=
+  mkR [] 41 (oh_udp oh) (oh_ext oh * 16777216 + oh_ver oh * 65536 + (if oh_do oh then 32768 else 0)) true
+      [RBytes (opts_bytes opts)].
 
 Definition acc_clear_sec (a : acc) (k : N) : acc :=
   mkAcc (if k =? 0 then [] else a_q a) (if k =? 1 then [] else a_an a)
@@ -553,7 +603,7 @@ Definition acc_step (sec : N) (a : acc) (o : op) (w : rword) : acc :=
   match o, w with
   | OpQ q, ROk => mkAcc (a_q a ++ [q]) (a_an a) (a_ns a) (a_ar a)
   | OpR r, ROk => acc_add_r a sec r
-  | OpOpt udp opts, ROk => acc_add_r a sec (opt_record udp opts)
+  | OpOpt oh opts, ROk => acc_add_r a sec (opt_record oh opts)
   | OpBack, RNone => if sec =? 0 then a else acc_clear_sec a sec
   | OpRewind, RNone => acc_clear_sec a sec
   | _, _ => a
